@@ -170,8 +170,8 @@ def impl_rules(op):
         Rule("R3", "bail ! $a", "return Err ( VErr )", why="bail! -> return Err"),
         Rule("R3", "log :: error ! $a ;", "", why="logging dropped"),
         Rule("R1", "let ( t1 , t2 ) = ( & self , & rhs ) ;", "let ( t1 , t2 ) = ( this , rhs ) ;", count=1, why="&&Primitive -> &Primitive (auto-deref)"),
-        Rule("R1", "Float ( f ) if f == & 0.0", "Primitive :: Float ( f ) if f_is_zero ( f )", why="float comparison with 0.0 as uninterpreted predicate"),
-        Rule("R1", "Int ( 0 )", "Primitive :: Int ( 0 )"), Rule("R1", "BigInt ( 0 )", "Primitive :: BigInt ( 0 )"), Rule("R1", "Byte ( 0 )", "Primitive :: Byte ( 0 )"),
+        Rule("R1", "Float ( f ) if f == & 0.0", "Float ( f ) if f_is_zero ( f )", why="float comparison with 0.0 as uninterpreted predicate"),
+        Rule("R1", "* $x == 0.0", "f_is_zero ( $x )", why="float comparison with 0.0 as uninterpreted predicate"),
         Rule("Rm", f"apply_math_bin_op_if_applicable ! ( t1 {SYM[op]} t2 )", f"math_{op} ( t1 , t2 )", count=1, why="macro invocation -> its expansion as a function"),
     ]
 
@@ -238,6 +238,14 @@ pub fn math_{op}(t1: &Primitive, t2: &Primitive) -> (r: Option<Primitive>)
             f = extract_fn(it["body"], op)
             b = translate(f["body"], impl_rules(op), log, f"{op}.rs impl")
             b = Rule("R1", "self", "this", why="receiver renamed").apply(b, log)
+            # `use Primitive::*;` at the top of the file: variants written qualified
+            q = []
+            for j, t in enumerate(b):
+                if t in ("Int", "BigInt", "Float", "Byte", "Bool", "Str") and j + 1 < len(b) and b[j + 1] == "(" and (j == 0 or b[j - 1] != "::"):
+                    q += ["Primitive", "::", t]
+                else:
+                    q.append(t)
+            b = q
             check_closed(b, f"{op}.rs impl")
             fns.append(f"""
 //@ OBL {tag}.{op}.operator
